@@ -25,10 +25,11 @@ def uncached(w, fn):
         Vertex.NEIGHBOR_CACHING = flag
 
 
-def execute_c(ops):
+def execute_c(ops, ephemeral=False):
     """ops: structure ops, ["QNB", v, d, u, f] queries, ["QTR", kind, start] traversals.  After every
     query the uncached answer is recorded next to the answer given."""
     w = H.World()
+    w.ephemeral_filters = bool(ephemeral)      # every query hands a NEW filter callable to neighbors() and drops it afterwards
     res = []
     try:
         for op in ops:
@@ -81,7 +82,7 @@ class CacheHistory(Leg):
     def generate(self, rng, n):
         for i in range(n):
             if i % 2:
-                yield {"ops": self.scenario(rng)}
+                yield {"ops": self.scenario(rng), "ephemeral": rng.random() < 0.25}
                 continue
             seed_ops = [["NV", False, [], []], ["NV", rng.choice([False, False, 2]), [], []], ["CACHE", True]]
             nops = rng.randint(8, 26)
@@ -115,7 +116,7 @@ class CacheHistory(Leg):
                     ops.append(op)
             finally:
                 w.close()
-            yield {"ops": ops}
+            yield {"ops": ops, "ephemeral": rng.random() < 0.25}
 
     def scenario(self, rng):
         """warm the memo of EVERY vertex, optionally switch the flag off, mutate once or twice through any public
@@ -128,10 +129,18 @@ class CacheHistory(Leg):
                 op = ["NV", rng.choice([False, False, False, 2]), [], []]     # 2 = a vertex whose truth value is False
                 w.do(op)
                 ops.append(op)
+            halves = []
             for _ in range(rng.randint(1, 4)):
                 op = ["NE", rng.choice(H.LINK_KINDS), rng.randrange(nv), rng.randrange(nv)]
+                if rng.random() < 0.2:
+                    op[rng.choice([2, 3])] = None            # an end left unset ...
+                    halves.append(len(w.objs))
                 w.do(op)
                 ops.append(op)
+                if halves and halves[-1] == len(w.objs) - 1 and rng.random() < 0.6:
+                    op = ["LAV", halves[-1], rng.randrange(nv)]      # ... and a further member attached to the same link
+                    w.do(op)
+                    ops.append(op)
             keys = rng.sample(KEYS[:4], rng.randint(1, 2)) if rng.random() < 0.6 else rng.sample([KEYS[3]] + SIBLINGS, 3)
             ops.append(["CACHE", True])
             w.do(ops[-1])
@@ -143,6 +152,11 @@ class CacheHistory(Leg):
             tags = [t for t in W_CACHE if t not in ("CACHE", "NV", "NU", "UAV")]
             wts = [W_CACHE[t] for t in tags]
             k = 0
+            if halves and rng.random() < 0.5:
+                op = ["LUF", rng.choice(halves), None]       # the unset end is dropped from the link: the others move up
+                w.do(op)
+                ops.append(op)
+                k = 1
             while k < rng.randint(1, 2):
                 op = gen_one(rng, w, tags, wts)
                 if op is None:
@@ -160,7 +174,7 @@ class CacheHistory(Leg):
 
     def observe(self, case):
         try:
-            return execute_c(case["ops"])
+            return execute_c(case["ops"], case.get("ephemeral"))
         except H.CaseInvalid:
             return None
 
@@ -209,14 +223,14 @@ class CacheHistory(Leg):
         ops = case["ops"]
         for i in range(len(ops) - 1, -1, -1):
             if ops[i][0] in ("QNB", "QTR", "CACHE"):
-                yield {"ops": ops[:i] + ops[i + 1:]}
+                yield {**case, "ops": ops[:i] + ops[i + 1:]}
         plain = [o for o in ops]
         for cand in H.shrink_ops([o if o[0] not in ("QNB", "QTR") else ["CACHE", None] for o in plain]):
             pass
         # drop one structural op (ids may shift: invalid candidates are rejected by CaseInvalid)
         for i in range(len(ops) - 1, -1, -1):
             if ops[i][0] not in ("QNB", "QTR", "CACHE", "NV", "NE", "LFT", "NU"):
-                yield {"ops": ops[:i] + ops[i + 1:]}
+                yield {**case, "ops": ops[:i] + ops[i + 1:]}
 
     def stats(self, case, obs, acc):
         if obs is None:
@@ -265,6 +279,7 @@ def gen_one(rng, w, tags, wts):
 class FreshProcess(Leg):
     """the process-boundary clause: a graph un-pickled into a fresh interpreter, caching on there"""
     name = "freshproc"
+    time_limit = 600           # fresh interpreters (each limited to 120 s)
     imports = "From EG Require Import Base."
     checkfn = "(fun b : bool => b)"
     case_type = "bool"
